@@ -331,7 +331,7 @@ class Checkers(object):
             return False, 'handle_channel_readable shape changed'
         if not (S.dominates(gets[0], procs[0]) and gets[0].args[1] == procs[0].args[1] and procs[0].args[1][0] == 'var'):
             return False, 'process_channel_message is not preceded by chan_slots.get(same id)'
-        if not any(g[2] == 'match' and 'Some(' in g[3] and 'None' not in g[3].split('~')[1] for g in procs[0].guards):
+        if (S.show(gets[0].term), 'Some(_)') not in S.lits_at(procs[0]):
             return False, 'process_channel_message is not under the Some(slot) outcome of the lookup'
         return True, 'non-zero ids come from handle_channel_readable after a successful lookup of the same id; channel 0 never sends Set*Handler'
 
